@@ -89,5 +89,5 @@ TokInt(left, b0, b1, b2, b3, b4) ==
   ELSE TokBad
 
 Byte(b) == b >= 0 /\ b <= 255
-IsI32(v) == v >= -2147483648 /\ v <= 2147483647
+IsI32(v) == v >= -2147483647 - 1 /\ v <= 2147483647
 =============================================================================
